@@ -312,7 +312,21 @@ func e3Rules(p *Prog) *RuleSet {
 			commaOkLookup("macalg-size", "fdo/cose.macAlgorithmKeySizes"),
 			// G2/G3 value facts
 			{Name: "bounds", EdgeDyn: boundFacts},
+			// a store overwrites the location nil-facts were keyed by
+			{Name: "ptr-store", AnyDyn: func(m *Matcher, in ssa.Instruction) (gen, kill []Atom) {
+				st, ok := in.(*ssa.Store)
+				if !ok || !isPtrLike(st.Val.Type()) {
+					return nil, nil
+				}
+				loc := "*" + canonAddr(st.Addr)
+				kill = []Atom{Atom("~" + loc)}
+				if nonNilValue(m.P, st.Val, 0) {
+					gen = []Atom{Atom("v:nn:" + loc)}
+				}
+				return gen, kill
+			}},
 		},
+		DynComplement: true,
 		Derive: []Derivation{
 			{"hashalg-safe", []Atom{"hashalg-valid"}}, {"hashalg-safe", []Atom{"hashalg-case"}},
 			{"sigalg-safe", []Atom{"sigalg-registered"}}, {"sigalg-safe", []Atom{"sigalg-case"}}, {"sigalg-safe", []Atom{"sigalg-accepted"}},
@@ -418,6 +432,14 @@ func boundFacts(m *Matcher, p Pred, holds bool) []Atom {
 	var a, b ssa.Value
 	strict := false
 	switch p.Kind {
+	case "nil":
+		if !isPtrLike(p.X.Type()) {
+			return nil
+		}
+		if !holds {
+			return []Atom{Atom("v:nn:" + canon(p.X))}
+		}
+		return []Atom{Atom("v:nil:" + canon(p.X))}
 	case "lt":
 		if holds {
 			a, b, strict = p.X, p.Y, true
@@ -1523,6 +1545,36 @@ func isUnsigned(v ssa.Value) bool {
 	switch v.Type().Underlying().String() {
 	case "uint", "uint8", "uint16", "uint32", "uint64", "uintptr", "byte":
 		return true
+	}
+	return false
+}
+
+// nonNilValue: the pointer is the address of a variable / composite literal,
+// or the result of a module function all of whose returns are such addresses.
+func nonNilValue(p *Prog, v ssa.Value, depth int) bool {
+	if depth > 3 {
+		return false
+	}
+	switch x := v.(type) {
+	case *ssa.Alloc, *ssa.FieldAddr, *ssa.IndexAddr:
+		return true
+	case *ssa.ChangeType:
+		return nonNilValue(p, x.X, depth)
+	case *ssa.Call:
+		body := p.body(x.Common().StaticCallee())
+		if body == nil || body.Signature.Results().Len() != 1 {
+			return false
+		}
+		any := false
+		for _, b := range body.Blocks {
+			if ret, ok := b.Instrs[len(b.Instrs)-1].(*ssa.Return); ok && b != body.Recover {
+				if !nonNilValue(p, ret.Results[0], depth+1) {
+					return false
+				}
+				any = true
+			}
+		}
+		return any
 	}
 	return false
 }
